@@ -77,7 +77,12 @@ type Task struct {
 	walKey      string    // for library tasks: the WAL dir they belong to
 	wm          *walModel // for rotators: the model of the WAL instance that spawned them
 	placeholder bool      // reserved at a spawn hook, not yet claimed by its goroutine
-	doneSeen    bool
+	// inUnlocked: the task is between the Unlock and the re-Lock inside
+	// awaitRotationLocked, where its caller's deferred Unlock must not run on an
+	// unlocked mutex if the goroutine is torn down here.
+	inUnlocked bool
+	unlockKey  string
+	doneSeen   bool
 }
 
 func (t *Task) Point() string { return t.point }
@@ -131,6 +136,12 @@ type Sim struct {
 	dead    bool
 	crashed bool
 
+	// OnUnsafeDie is called in a dying task's goroutine when it is torn down
+	// between awaitRotationLocked's Unlock and re-Lock: the harness must make
+	// sure the WAL's mutex is locked so that the deferred Unlock of the dying
+	// call does not hit an unlocked mutex (a fatal, unrecoverable error).
+	OnUnsafeDie func(key string)
+
 	// OnHook, if set, is called (in the task's goroutine, while it is the only
 	// one running) for every hook point of a live task before it parks.
 	OnHook func(t *Task, point string)
@@ -149,7 +160,14 @@ func init() {
 		if s == nil {
 			return
 		}
-		s.hook(point, key)
+		s.hook(point, key, nil)
+	}
+	verifhook.YieldChan = func(point, key string, ch <-chan struct{}) {
+		s := cur.Load()
+		if s == nil {
+			return
+		}
+		s.hook(point, key, ch)
 	}
 }
 
@@ -290,6 +308,9 @@ func (s *Sim) park(t *Task, point string, ready func() bool, onResume func()) {
 	s.mu.Unlock()
 	s.events <- event{evPark, t}
 	if die := <-t.wake; die {
+		if t.inUnlocked && s.OnUnsafeDie != nil {
+			s.OnUnsafeDie(t.unlockKey)
+		}
 		runtime.Goexit()
 	}
 }
@@ -402,7 +423,7 @@ func (s *Sim) Crash() {
 	runtime.Goexit()
 }
 
-func (s *Sim) hook(point, key string) {
+func (s *Sim) hook(point, key string, ch <-chan struct{}) {
 	g := goid()
 	s.mu.Lock()
 	if s.dead {
@@ -450,7 +471,7 @@ func (s *Sim) hook(point, key string) {
 	if s.OnHook != nil {
 		s.OnHook(t, point)
 	}
-	s.dispatch(t, point, key)
+	s.dispatch(t, point, key, ch)
 }
 
 func (s *Sim) count(point string) {
@@ -483,10 +504,12 @@ func (s *Sim) blockFor(t *Task, point, key string) (func() bool, func()) {
 	switch point {
 	case "writeMu.lock":
 		m := s.walFor(t, key)
-		return func() bool { return m.holder == nil }, func() { m.holder = t }
+		return func() bool { return m.holder == nil }, func() { m.holder = t; t.inUnlocked = false }
 	case "awaitRotate.wait":
 		m := s.walFor(t, key)
 		want := m.trigGen
+		t.inUnlocked = true
+		t.unlockKey = key
 		return func() bool { return m.doneGen >= want }, nil
 	case "rotate.idle":
 		m := s.walFor(t, key)
@@ -506,7 +529,7 @@ func (s *Sim) blockFor(t *Task, point, key string) (func() bool, func()) {
 	return nil, nil
 }
 
-func (s *Sim) dispatch(t *Task, point, key string) {
+func (s *Sim) dispatch(t *Task, point, key string, ch <-chan struct{}) {
 	switch point {
 	// ---- pure notifications (no yield) ----
 	case "rotate.spawn", "verifier.spawn":
@@ -565,6 +588,18 @@ func (s *Sim) dispatch(t *Task, point, key string) {
 		return
 	}
 	ready, onResume := s.blockFor(t, point, key)
+	if ch != nil {
+		// readiness of a channel wait is read off the real channel: a receive
+		// from a closed channel never blocks (and consumes nothing)
+		ready = func() bool {
+			select {
+			case <-ch:
+				return true
+			default:
+				return false
+			}
+		}
+	}
 	s.park(t, point, ready, onResume)
 }
 
@@ -698,38 +733,52 @@ func (s *Sim) Wait() Result {
 	}
 }
 
-// teardown kills every remaining task of this generation.
+// teardown kills every remaining task of this generation, one at a time.
 func (s *Sim) teardown() {
 	s.mu.Lock()
 	s.dead = true
-	need := 0
-	for _, t := range s.All {
+	tasks := append([]*Task(nil), s.All...)
+	s.mu.Unlock()
+	waitDone := func(t *Task) {
+		deadline := time.After(time.Duration(s.WatchdogSecs) * time.Second)
+		for {
+			s.mu.Lock()
+			seen := t.doneSeen
+			s.mu.Unlock()
+			if seen {
+				return
+			}
+			select {
+			case ev := <-s.events:
+				if ev.kind == evDone {
+					s.mu.Lock()
+					ev.t.doneSeen = true
+					s.mu.Unlock()
+				}
+			case <-deadline:
+				s.watchdog()
+			}
+		}
+	}
+	for _, t := range tasks {
 		if t.placeholder {
 			continue
 		}
-		if t.state == stParked {
+		s.mu.Lock()
+		parked := t.state == stParked
+		if parked {
 			t.dead = true
 			t.state = stDone
+		}
+		s.mu.Unlock()
+		if parked {
 			t.wake <- true
 		}
-		// every harness goroutine sends exactly one evDone from its wrapper
-		if t.Harness && !t.doneSeen {
-			need++
-		}
-	}
-	s.mu.Unlock()
-	// Drain done events of harness tasks so their goroutines are gone before
-	// the next generation starts. Library goroutines are inert once dead.
-	deadline := time.After(time.Duration(s.WatchdogSecs) * time.Second)
-	for need > 0 {
-		select {
-		case ev := <-s.events:
-			if ev.kind == evDone && ev.t.Harness && !ev.t.doneSeen {
-				ev.t.doneSeen = true
-				need--
-			}
-		case <-deadline:
-			s.watchdog()
+		// every harness goroutine sends exactly one evDone from its wrapper;
+		// wait for it so that dying goroutines never overlap each other or the
+		// next generation. Library goroutines are inert once dead.
+		if t.Harness {
+			waitDone(t)
 		}
 	}
 	cur.CompareAndSwap(s, nil)
